@@ -41,6 +41,9 @@ def sum_axioms():
                              f(F, lo, hi) == f(G, lo, hi)),
                   patterns=[z3.MultiPattern(f(F, lo, hi), f(G, lo, hi))]),
         z3.ForAll([F, lo, hi], z3.Implies(hi <= lo, f(F, lo, hi) == 0), patterns=[f(F, lo, hi)]),
+        z3.ForAll([F, lo, hi],
+                  z3.Implies(z3.ForAll([i], z3.Implies(z3.And(lo <= i, i < hi), z3.Select(F, i) == 0)),
+                             f(F, lo, hi) == 0), patterns=[f(F, lo, hi)]),
         z3.ForAll([F, lo, hi], z3.Implies(lo <= hi, f(F, lo, hi + 1) == f(F, lo, hi) + z3.Select(F, hi)),
                   patterns=[f(F, lo, hi + 1)]),
     ]
